@@ -584,6 +584,56 @@ pub fn c20_conversion() {
         check!(got.is_err() && calls.is_empty(), "a value of the wrong kind is an execution error and the function is not invoked");
     }
 }
+/// List and map literals over logging host functions: elements / keys / values are evaluated once
+/// each in source order, the first error aborts, the value holds exactly what was written.
+pub fn c07_literal() {
+    let (is_map, n, bad): (bool, u8, u8) = (any(), any(), any());
+    // bad: index of the failing evaluation in source order (for maps k0, v0, k1, v1, ...), 255 = none
+    crate::sym::assume(n <= 3);
+    let total = if is_map { 2 * n as usize } else { n as usize };
+    let log: Arc<Mutex<Vec<usize>>> = Arc::new(Mutex::new(Vec::new()));
+    let mut ctx = Context::default();
+    for k in 0..6usize {
+        let l = log.clone();
+        ctx.add_function(&format!("e{}", k), move || -> Result<Value, ExecutionError> {
+            l.lock().unwrap().push(k);
+            if k == bad as usize {
+                Err(ExecutionError::function_error(&format!("e{}", k), "configured error"))
+            } else {
+                Ok(Value::Int(100 + k as i64))
+            }
+        });
+    }
+    let src = if is_map {
+        let es: Vec<String> = (0..n as usize).map(|j| format!("e{}(): e{}()", 2 * j, 2 * j + 1)).collect();
+        format!("{{{}}}", es.join(", "))
+    } else {
+        let es: Vec<String> = (0..n as usize).map(|j| format!("e{}()", j)).collect();
+        format!("[{}]", es.join(", "))
+    };
+    let got = Program::compile(&src).expect("literal compiles").execute(&ctx);
+    let calls = log.lock().unwrap().clone();
+    let upto = if (bad as usize) < total { bad as usize + 1 } else { total };
+    check!(calls == (0..upto).collect::<Vec<usize>>(), "literal: elements, keys and values are evaluated once each, in source order, the first error aborts");
+    if (bad as usize) < total {
+        check!(matches!(&got, Err(ExecutionError::FunctionError { function, .. }) if *function == format!("e{}", bad)), "literal: the first error is the result");
+    } else if is_map {
+        match &got {
+            Ok(Value::Map(m)) => {
+                check!(m.map.len() == n as usize, "map literal with distinct keys has one entry per written pair");
+                for j in 0..n as usize {
+                    check!(m.get(&cel_interpreter::objects::Key::Int(100 + 2 * j as i64)) == Some(&Value::Int(101 + 2 * j as i64)), "map literal holds exactly the written entries");
+                }
+            }
+            _ => check!(false, "a map literal evaluates to a map"),
+        }
+    } else {
+        check!(got == Ok(Value::List(Arc::new((0..n as i64).map(|j| Value::Int(100 + j)).collect()))), "list literal holds the element values in order");
+    }
+}
+pub fn c14_literal() {
+    c07_literal()
+}
 pub fn c07_extractor_eval() {
     c20_extractor_eval()
 }
@@ -629,6 +679,8 @@ crate::replay_only! {
     #[kani::unwind(2)] c11_fold: "off", "Context::resolve on a hand-built Expr::Comprehension with logging host functions (native replay body for the MIR engine)", "0-3 elements, every failing point, every condition pattern";
     #[kani::unwind(2)] c20_extractor_eval: "off", "size(..) / x.size() / max(..) over logging host functions through Program::compile + execute", "This with/without receiver, Arguments; failing argument index 0-2 or none";
     #[kani::unwind(2)] c20_conversion: "off", "host function with one typed parameter (i64/u64/bool/f64/Option<..>) called with a value of each kind, through Program::compile + execute", "7 parameter types x 6 value kinds";
+    #[kani::unwind(2)] c07_literal: "off", "list / map literal over logging host functions through Program::compile + execute", "0-3 elements or entries, every failing position";
+    #[kani::unwind(2)] c14_literal: "off", "same body (C14)", "same";
     #[kani::unwind(2)] c07_extractor_eval: "off", "same body (C07)", "same";
     #[kani::unwind(2)] c08_unary_minus: "off", "Program::compile + Value::resolve NEGATE arm", "i: all i64";
     #[kani::unwind(2)] c20_node: "off", "same body (C20)", "17 operators x 5 operand-result kinds";
